@@ -34,12 +34,38 @@ Definition driver (L S : Z) (dA : list Z) (Wc : Z -> list V) : option (list (opt
          put b (snd ci) (NP.select (Wc (fst ci)) (days_mask_adjust_in_window iw (snd ci)))
      end) (days_use S dA) (Some (repeat None (length dA))).
 
+(** RunningWindowDebiaser.apply_location as the code is now written: a window whose adjust index set is
+    empty (no time step of the adjusted series falls on its days) is skipped BEFORE the window method is
+    called — so a method that cannot cope with an empty slice is never handed one for nothing *)
+Definition driver_skip (L S : Z) (dA : list Z) (Wc : Z -> list V) : option (list (option V)) :=
+  fold_left (fun buf ci =>
+     match buf with
+     | None => None
+     | Some b =>
+         match snd ci with
+         | [] => Some b
+         | _ :: _ =>
+           let iw := days_indices_in_window L dA (fst ci) in
+           put b (snd ci) (NP.select (Wc (fst ci)) (days_mask_adjust_in_window iw (snd ci)))
+         end
+     end) (days_use S dA) (Some (repeat None (length dA))).
+
+(** the centres whose window method is actually evaluated by the skipping loop *)
+Definition evaluated_centres (S : Z) (dA : list Z) : list Z :=
+  map fst (filter (fun ci => match snd ci with [] => false | _ => true end) (days_use S dA)).
+
 (** RunningWindowDebiaser / ISIMIP (window mode): the per-window method sees the three slices *)
 Definition driver_rw {T : Type} (L S : Z) (dobs dhist dfut : list Z) (obs hist fut : list T)
            (W : list T -> list T -> list T -> list V) : option (list (option V)) :=
   driver L S dfut (fun c => W (NP.take obs (days_indices_in_window L dobs c))
                               (NP.take hist (days_indices_in_window L dhist c))
                               (NP.take fut (days_indices_in_window L dfut c))).
+
+Definition driver_rw_skip {T : Type} (L S : Z) (dobs dhist dfut : list Z) (obs hist fut : list T)
+           (W : list T -> list T -> list T -> list V) : option (list (option V)) :=
+  driver_skip L S dfut (fun c => W (NP.take obs (days_indices_in_window L dobs c))
+                                   (NP.take hist (days_indices_in_window L dhist c))
+                                   (NP.take fut (days_indices_in_window L dfut c))).
 
 (** DeltaChange: the loop runs over obs' days and the output follows obs *)
 Definition driver_dc {T : Type} (L S : Z) (dobs dhist dfut : list Z) (obs hist fut : list T)
